@@ -53,49 +53,48 @@ Arguments load_rows {P R}. Arguments trows {P R}.
 
 Section LowP.
   Variable pg : Z -> res (list byte).
-  Variable U : Z.
+  Variable op : Z -> res page.   (* Database.openPage: the parsed page n *)
   Variable npages : nat.
 
-  Notation openp := (openp pg U).
   Notation load := (load pg npages).
 
   (* the rows of the table / index rooted at [root]: what a full decode of the
      tree yields, in order, with the first error met (if any) *)
   Definition table_rows (root : Z) : flat (Z * record) :=
-    match open_table _ openp root with
+    match open_table _ op root with
     | Err e => ([], Some e)
-    | Ok p => trows load (tflat _ openp max_recursion p)
+    | Ok p => trows load (tflat _ op max_recursion p)
     end.
 
   Definition index_rows (root : Z) : flat record :=
-    match open_index _ openp root with
+    match open_index _ op root with
     | Err e => ([], Some e)
-    | Ok p => iflat _ _ openp load max_recursion p
+    | Ok p => iflat _ _ op load max_recursion p
     end.
 
   Section CB.
     Variable S : Type.
 
     Theorem table_scan_rows root (cb : Z -> record -> S -> flow * S) s :
-      table_scan pg U npages S root cb s
+      table_scan pg op npages S root cb s
       = run_flat (fun x s => cb (fst x) (snd x) s) (table_rows root) s.
     Proof.
-      unfold table_scan, table_rows. destruct (open_table _ openp root) as [p|e]; [|reflexivity].
+      unfold table_scan, table_rows. destruct (open_table _ op root) as [p|e]; [|reflexivity].
       rewrite titer_flat. apply (run_flat_load _ _ load S cb).
     Qed.
 
     Theorem index_scan_rows root (cb : record -> S -> flow * S) s :
-      index_scan pg U npages S root cb s = run_flat cb (index_rows root) s.
+      index_scan pg op npages S root cb s = run_flat cb (index_rows root) s.
     Proof.
-      unfold index_scan, index_rows. destruct (open_index _ openp root) as [p|e]; [|reflexivity].
+      unfold index_scan, index_rows. destruct (open_index _ op root) as [p|e]; [|reflexivity].
       apply iiter_flat.
     Qed.
 
     Theorem index_scan_min_rows root from (cb : record -> S -> flow * S) l s :
       index_rows root = (l, None) -> mono (search from) l ->
-      index_scan_min pg U npages S root from cb s = run_cb cb (drop_lt (search from) l) s.
+      index_scan_min pg op npages S root from cb s = run_cb cb (drop_lt (search from) l) s.
     Proof.
-      unfold index_scan_min, index_rows. destruct (open_index _ openp root) as [p|e]; [|discriminate].
+      unfold index_scan_min, index_rows. destruct (open_index _ op root) as [p|e]; [|discriminate].
       intros Hl Hm. apply iiter_min_flat; assumption.
     Qed.
 
@@ -108,7 +107,7 @@ Section LowP.
 
     Theorem index_scan_range_rows root from to (cb : record -> S -> flow * S) l s :
       index_rows root = (l, None) -> mono (search from) l ->
-      outcome (index_scan_range pg U npages S root from to cb s)
+      outcome (index_scan_range pg op npages S root from to cb s)
       = outcome (run_cb cb (take_while (fun r => negb (search to r)) (drop_lt (search from) l)) s).
     Proof.
       intros Hl Hm. unfold index_scan_range. rewrite (index_scan_min_rows _ _ _ l); try assumption.
@@ -117,7 +116,7 @@ Section LowP.
 
     Theorem index_scan_eq_rows root k (cb : record -> S -> flow * S) l s :
       index_rows root = (l, None) -> mono (search k) l ->
-      outcome (index_scan_eq pg U npages S root k cb s)
+      outcome (index_scan_eq pg op npages S root k cb s)
       = outcome (run_cb cb (take_while (equals k) (drop_lt (search k) l)) s).
     Proof.
       intros Hl Hm. unfold index_scan_eq. rewrite (index_scan_min_rows _ _ _ l); try assumption.
@@ -174,18 +173,18 @@ Section LowP.
      well-formedness (keys ascending, separators bound their left subtrees)
      Table.Rowid is the lookup in the tree's rows, for every rowid *)
   Theorem table_rowid_lookup root rowid p l :
-    open_table _ openp root = Ok p ->
-    tflat _ openp max_recursion p = (l, None) ->
+    open_table _ op root = Ok p ->
+    tflat _ op max_recursion p = (l, None) ->
     StronglySorted Z.lt (map fst l) ->
-    sep_ok cell_payload openp rowid max_recursion p ->
-    table_rowid pg U npages root rowid =
+    sep_ok cell_payload op rowid max_recursion p ->
+    table_rowid pg op npages root rowid =
     match lookup_pl rowid l with
     | None => Ok None
     | Some (_, pl) => do rec <- load pl; Ok (Some rec)
     end.
   Proof.
     intros Hop Hfl Hs Hsep. unfold table_rowid. rewrite Hop.
-    rewrite (titer_min_spec cell_payload openp (option cell_payload) _ rowid) with (l := l);
+    rewrite (titer_min_spec cell_payload op (option cell_payload) _ rowid) with (l := l);
       [| intros k pl s; cbn; discriminate | exact Hfl | apply sorted_mono_tpred; exact Hs | exact Hsep].
     rewrite sorted_drop_lookup by exact Hs. unfold tmin_spec.
     destruct (drop_lt (tpred cell_payload rowid) l) as [|[k pl] rest]; [reflexivity|].
